@@ -14,7 +14,7 @@ import random
 
 from .. import common, identlib
 from ..gen import cfggen, edits
-from ..translate import hashflags, hashsrc, sealsrc, walksrc
+from ..translate import argflags, hashflags, hashsrc, sealsrc, walksrc
 
 PROP = "C14"
 MODULES = ["XpmVerif.Properties.C14", "XpmVerif.Properties.HashSrc", "XpmVerif.Properties.WalkSrc", "XpmVerif.Properties.C14Src"]
@@ -31,6 +31,8 @@ def prove(ctx):
     msgs.append(sealsrc.generate(common.REPO, common.LEAN))
     ctx.notes.append(f"translator(sealsrc): {msgs[3][1]}")
     ctx.count("translator", "sealsrc:" + ("translated" if msgs[3][1].startswith("translated") else "fallback"))
+    msgs.append(argflags.generate(common.REPO, common.LEAN, probe=identlib.inherit_rule_probe(ctx)))   # Generated/ArgFlags.lean: the driver derives the argument flags with it
+    ctx.notes.append(f"translator(argflags): {msgs[-1][1]}")
     common.check_proofs(ctx, MODULES, translate_msgs=msgs)
 
 
